@@ -125,6 +125,7 @@ class ImplDeck:
                 pcell = ParseMCNPCell(parser, None, self.lattice_params)
             except Exception as exc:           # pylint: disable=broad-except
                 self.setup_error = exc
+                self.result = ('err', exc_class(exc), repr(exc)[:200])
                 return
             self.importances = list(pcell.importances)
             self.transforms = {k: list(v[:12])
@@ -354,6 +355,10 @@ def sweep_deck(res, deck, text, rng, do_points):
     # parsed cells, field by field
     obs_like = ImplDeck(text)
     obs_exp = ImplDeck(text_exp)
+    if (obs_like.setup_error is None) != (obs_exp.setup_error is None):
+        failures.append(('parsed', 'reading the cell block: LIKE deck '
+                         f'{obs_like.setup_error!r}, explicit expansion '
+                         f'{obs_exp.setup_error!r}', None))
     if obs_like.setup_error is None and obs_exp.setup_error is None:
         diffs = diff_cells(obs_like, obs_exp)
         if diffs:
@@ -521,9 +526,9 @@ def witness_fails():
 def run(res, tier, seed, proofs_ok):
     rng = random.Random(seed)
     quick = tier == 'quick'
-    n_valid = 260 if quick else 2600
-    n_dec = 30 if quick else 250
-    n_edge = 240 if quick else 2400
+    n_valid = 200 if quick else 2600
+    n_dec = 24 if quick else 250
+    n_edge = 200 if quick else 2400
     n_points = 40 if quick else 400
     res.rule = (
         'abstract decks: 1-3 explicit level-0 bodies (sphere, box, cylinder, '
@@ -609,7 +614,7 @@ def run(res, tier, seed, proofs_ok):
 
     bad, errs = common.run_case_files(
         'c15_deck', HEADER, 'tables * table * out', 'check_deck',
-        cases, chunk=40)
+        cases, chunk=30)
     res.obligation(f'tie:deck ({len(cases)} decks: model parse_all = '
                    'ParseMCNPCell.parse())', not bad and not errs,
                    f'{len(bad)} disagreements {errs[:1]}')
